@@ -163,8 +163,7 @@ func (s *Topics) ReplaceHandler(topic string, oldH, newH Handler) {
 		s.topics[topic] = t
 	}
 
-	t.removeHandler(oldH)
-	t.addHandler(newH)
+	t.replaceHandler(oldH, newH)
 }
 
 // TopicState returns the max alert level for each topic matching 'pattern', not returning
@@ -247,6 +246,18 @@ func (t *Topic) MaxLevel() Level {
 func (t *Topic) addHandler(h Handler) {
 	t.mu.Lock()
 	defer t.mu.Unlock()
+	t.addHandlerLocked(h)
+}
+
+// replaceHandler swaps the handlers in one step so that no collected event falls in between.
+func (t *Topic) replaceHandler(oldH, newH Handler) {
+	t.mu.Lock()
+	defer t.mu.Unlock()
+	t.removeHandlerLocked(oldH)
+	t.addHandlerLocked(newH)
+}
+
+func (t *Topic) addHandlerLocked(h Handler) {
 	for _, cur := range t.handlers {
 		if cur.Equal(h) {
 			return
@@ -259,6 +270,10 @@ func (t *Topic) addHandler(h Handler) {
 func (t *Topic) removeHandler(h Handler) {
 	t.mu.Lock()
 	defer t.mu.Unlock()
+	t.removeHandlerLocked(h)
+}
+
+func (t *Topic) removeHandlerLocked(h Handler) {
 	for i := 0; i < len(t.handlers); i++ {
 		if t.handlers[i].Equal(h) {
 			// Close handler
